@@ -599,6 +599,13 @@ func (s *netSim) fail(class, detail string) {
 		return
 	}
 	s.failed[class] = true
+	if s.mode == "C01" && class == "no-progress" {
+		// liveness belongs to C04 (same generator, same oracle, reported there); a stuck C01 run is
+		// counted, its heights reached so far are still checked for agreement
+		s.o.Count("run:stuck:" + strings.SplitN(detail, ":", 2)[0])
+		s.o.Mark("stuck-run")
+		return
+	}
 	if s.scenario != "" {
 		detail = s.scenario + ": " + detail
 	}
